@@ -94,7 +94,7 @@ type c34Stats struct {
 	chain, prefixInexact, sumNotDiv  bool
 	ties, huge, unended              bool
 	tagInflight, tagEnded, tagUntracked, tagUnknown,
-	tagBeforeStart, tagAmbiguous, endUnknown bool
+	tagAmbiguous, endUnknown bool
 	busyAsserted bool
 }
 
@@ -112,8 +112,13 @@ func posOverlap(a, b c34Ival) bool {
 
 // hasChain: there are tracked intervals a, b, c, a the first started of the
 // three, with a∩b ≠ ∅, b∩c of positive length and a∩c = ∅ (the "chained" shape
-// of the property statement). Every miscount of the listed busy-time finding
-// needs such a triple (see the derivation in the final report / known.d).
+// of the property statement). It is the input class of the listed busy-time
+// finding: taskBusyTime forms groups {first uncovered interval s + every
+// uncovered interval touching s} and adds the hull of each group; every hull is
+// inside the union, so the result is wrong iff two hulls overlap in positive
+// length, i.e. some member b of one group overlaps some member c of another;
+// with a = the seed of the group formed first, a touches b (or c), does not
+// touch the other, and was started before both.
 func hasChain(iv []c34Ival) bool {
 	for i := range iv {
 		for j := i + 1; j < len(iv); j++ {
